@@ -13,7 +13,7 @@ prop("C04", pkg="c04",
      thorough=dict(shards=16, scale=4, timeout=3000),
      technique="property-based testing (rapid) with generated Go struct types: round trip, reused-vs-fresh codec and cross-protocol metamorphic oracles under a "
                "reflection-based equality modulo nil/empty collections",
-     level_text="Exploration: ~0.26 M generated (type, values, codec schedule) cases per quick run (~1.0 M thorough, with up to 10 values per type) are round-tripped through all three protocols "
+     level_text="Exploration: ~0.19 M generated (type, values, codec schedule) cases per quick run (~0.77 M thorough, with up to 10 values per type) are round-tripped through all three protocols "
                 "and every codec mode; any value that does not come back equal (nil and empty collections identified, floats by bit pattern), any byte difference "
                 "between a reused and a fresh Encoder, any disagreement between protocols, and any panic is reported with the shrunk case. Nothing is proved "
                 "about types or values outside the generator's bounds (nesting depth <= 3 (4 thorough), <= 140 fields, collections <= 130 elements).",
